@@ -215,6 +215,10 @@ func visitInstr(fr *frame, instr ssa.Instruction) continuation {
 					panic("runtime error: integer divide by zero")
 				}
 			}
+			if v, ok := relDivConst(fr, instr.Op, x, y); ok { // opt-in, see zz_reldiv.go
+				fr.env[instr] = v
+				return kNext
+			}
 		case token.SHL, token.SHR:
 			if sy, ok := y.(sym); ok && ksigned(sy.k) {
 				c := sy.t.C
@@ -222,6 +226,9 @@ func visitInstr(fr *frame, instr ssa.Instruction) continuation {
 					panic("runtime error: negative shift amount")
 				}
 			}
+		}
+		if ps.ovfWatch && (instr.Op == token.ADD || instr.Op == token.SUB || instr.Op == token.MUL) {
+			ps.watchOverflow(fr, instr.Op, x, y)
 		}
 		fr.env[instr] = binop(instr.Op, instr.X.Type(), x, y)
 
@@ -236,6 +243,9 @@ func visitInstr(fr *frame, instr ssa.Instruction) continuation {
 		fr.env[instr] = fr.get(instr.X) // (can't fail)
 
 	case *ssa.Convert:
+		if ps.ovfWatch {
+			ps.watchTruncation(fr, instr.Type(), fr.get(instr.X))
+		}
 		fr.env[instr] = conv(fr, instr.Type(), instr.X.Type(), fr.get(instr.X))
 
 	case *ssa.SliceToArrayPointer:
